@@ -1,5 +1,6 @@
 import LexVerif.Proof.ParseIntFormatGrammar
 import LexVerif.Proof.ParseIntFormatTotal
+import LexVerif.Proof.ParseIntFormatAgree
 import LexVerif.Props.C04
 import LexVerif.Props.C11Int
 import LexVerif.Model.Ops.ParseInt
@@ -295,12 +296,37 @@ example : complete ⟨featsRF, fmtNoPosSign, false⟩ ⟨8, true⟩ false [0x2b,
 
 /-! ## (d) C11 — the complete and the partial parser agree -/
 
-/-- **C11 clause 1 for the `format` build, full statement**: OPEN (its former counter-example `"0"` under
-`no_integer_leading_zeros` was a defect, repaired: `regression_I2`; proved for `SimpleFmt` formats below). -/
+/-- **C11 clause 1 for the `format` build, full statement**: PROVED (`int_format_complete_iff_partial`). Its former
+counter-example `"0"` under `no_integer_leading_zeros` was a defect, repaired in /repo (`regression_I2`). -/
 def int_format_complete_iff_partial_full : Prop :=
   ∀ (c : Cfg) (t : IntTy) (nm : Bool) (s : List Nat) (v : Int), c.feats.format = true → c.debug = false →
     (formatError c.feats c.fmt).isNone = true → Admissible ⟨c, t, false, nm⟩ → (∀ b ∈ s, b < 256) →
       (complete c t nm s = .ok v ↔ partial_ c t nm s = .ok (v, s.length))
+
+/-- **C11 clause 1, integers, `format` builds — every valid format** (digit separators with any flags, base prefix,
+base suffix, `no_integer_leading_zeros`, any sign / digit flags), every type, radix, `no_multi_digit`, every byte list,
+release build: the complete parser returns `Ok(v)` iff the partial parser returns `Ok((v, length))`.
+Proof (`Proof/ParseIntFormatAgree.lean`): the two parsers are one macro body and differ only in `invalid_digit!`; they
+run in lockstep until its first call, where complete returns `Err` and partial `Ok((_, i))` with `i < length` (cursor
+inside the buffer, `Proof/ParseIntFormatTotal.lean`); every other `Ok` carries the buffer length. -/
+theorem int_format_complete_iff_partial (c : Cfg) (t : IntTy) (nm : Bool) (hd : c.debug = false)
+    (hv : (formatError c.feats c.fmt).isNone = true) (s : List Nat) (v : Int) :
+    complete c t nm s = .ok v ↔ partial_ c t nm s = .ok (v, s.length) := by
+  have h := (parseIntFormat_agree (t := t) (nm := nm) (LexVerif.Proof.PNTotal.rel_of_valid c hd hv) s).iff v
+  unfold complete partial_
+  rw [← h]
+  cases parseIntFormat ⟨c, t, false, nm⟩ s with
+  | error x => simp [Except.map]
+  | ok p => obtain ⟨w, k⟩ := p; simp [Except.map]
+
+theorem int_format_complete_iff_partial_full_holds : int_format_complete_iff_partial_full :=
+  fun c t nm s v _ hd hv _ _ => int_format_complete_iff_partial c t nm hd hv s v
+
+/-- non-vacuity on a format with everything at once (prefix `x`, suffix `h`, separator `_` I+L+T+C): `"0x1_fh"` -/
+example : complete ⟨{ powerOfTwo := true, radix := true, format := true }, ⟨0x101010687800005f000002490000000c⟩, false⟩
+      ⟨32, true⟩ false [0x30, 0x78, 0x31, 0x5f, 0x66, 0x68] = .ok 31 ∧
+    partial_ ⟨{ powerOfTwo := true, radix := true, format := true }, ⟨0x101010687800005f000002490000000c⟩, false⟩
+      ⟨32, true⟩ false [0x30, 0x78, 0x31, 0x5f, 0x66, 0x68] = .ok (31, 6) := by decide
 
 /-- **C11 clause 2 for the `format` build, full statement** (a digit was consumed): FALSE (`witness_I3`, `witness_I4`). -/
 def int_format_partial_prefix_full : Prop :=
@@ -308,9 +334,9 @@ def int_format_partial_prefix_full : Prop :=
     (formatError c.feats c.fmt).isNone = true → Admissible ⟨c, t, false, nm⟩ → (∀ b ∈ s, b < 256) →
       partial_ c t nm s = .ok (v, n) → signLen t s < n → complete c t nm (s.take n) = .ok v
 
-/-- **(d) proved part — clause 1 under the weakest hypothesis found**: every `SimpleFmt` format (any sign flags, digits
-required or not). The three excluded ingredients each have a counter-example below: `no_integer_leading_zeros` (not proved; its former counter-example I2 is repaired),
-base suffix (I3, clause 2), base prefix (I4, clause 2); separator formats: C11-partial-count-includes-trailing-separator. -/
+/-- clause 1 on `SimpleFmt` formats through the characterisation (superseded by `int_format_complete_iff_partial`, kept: it
+does not go through the lockstep argument but through the specification scan). Clause 2 is false for base suffix (I3)
+and base prefix (I4), and for separator formats (C11-partial-count-includes-trailing-separator). -/
 theorem int_format_complete_iff_partial_partial (c : Cfg) (t : IntTy) (nm : Bool) (hs : SimpleFmt c)
     (ha : Admissible ⟨c, t, false, nm⟩) (s : List Nat) (hb : ∀ b ∈ s, b < 256) (v : Int) :
     complete c t nm s = .ok v ↔ partial_ c t nm s = .ok (v, s.length) := by
